@@ -315,6 +315,7 @@ func opLeoBf(a []string) string {
 		}
 	} else {
 		modulus = 65535
+		rs.VerifLeoMul16(0) // the package builds its GF16 tables on first use (New does it); the kernels are called directly here
 		mulBuf = func(y []byte, logm int) []byte {
 			lo, hi := rs.VerifLeoMul16(logm)
 			o := make([]byte, len(y))
